@@ -326,7 +326,7 @@ class C13(Prop):
             'writes on fd 2, boundaries anywhere incl. mid-line and mid-character, delays 0/1/5 ms, the child _exit()ing right after its last '
             'write); stdout (minus prompt and the child\'s own stdout marker) and stderr must be identical in all modes and chunkings, the '
             'child must see its argv verbatim and WAYLAND_DEBUG=1, its stdout marker must arrive once, the exit status must be the child\'s. '
-            'non-trivial = stream >= 5 lines with a mid-line chunk boundary and a non-zero exit status or option-like argv; distinct by SHA-1.')
+            'non-trivial = stream >= 5 lines with a mid-line chunk boundary and a non-zero exit status or option-like argv; distinct by SHA-1. on-a-terminal: the same stream with standard output (and, where somebody is at the keyboard, standard input) on pseudo-terminals and no colour option: file = file with nobody at the keyboard = pipe = run, byte for byte. modes also loads the stream with -l from a FIFO and from /dev/stdin.')
     assumptions = ['chunkings and delays are sampled on a real pipe; kernel scheduling is not enumerated (single reader thread)',
                    'LC_ALL=C.UTF-8; streams are valid UTF-8 here (undecodable bytes belong to C18)']
     stages = [Modes(), OnATerminal()]
